@@ -269,7 +269,13 @@ class Integer(base.SimpleAsn1Type):
             return str(self.namedValues[value])
 
         except KeyError:
-            return str(value)
+            try:
+                return str(value)
+
+            except ValueError:
+                # longer than the interpreter converts to decimal
+                # digits (sys.set_int_max_str_digits)
+                return hex(value)
 
     # backward compatibility
 
